@@ -123,6 +123,21 @@ class SymExec:
                 inner = n.__class__(elt=n.elt, generators=[n.generators[1]])
                 outer = ast.GeneratorExp(elt=inner, generators=[n.generators[0]])
                 res = self.subst(outer, env)
+                if isinstance(res, ast.List):
+                    # the outer generator ranged over a literal: the inner sequences follow one another
+                    flat = []
+                    for e_ in res.elts:
+                        if isinstance(e_, ast.Starred):
+                            flat.append(e_)
+                        elif isinstance(e_, (ast.List, ast.Tuple)):
+                            flat += e_.elts
+                        elif _is_each(e_):
+                            flat.append(ast.Starred(value=e_, ctx=ast.Load()))
+                        else:
+                            flat = None
+                            break
+                    if flat is not None:
+                        return ast.List(elts=flat, ctx=ast.Load())
                 if isinstance(n, ast.ListComp):
                     return ast.List(elts=[ast.Starred(value=res, ctx=ast.Load())], ctx=ast.Load())
                 return res
@@ -980,8 +995,11 @@ class SymExec:
         if isinstance(st, ast.AugAssign):
             out = []
             if isinstance(st.target, ast.Subscript):
-                # X[i] op= v : the old element is named, not spelled out (it would double the expression)
-                cur = ast.Name(id='_old', ctx=ast.Load())
+                # X[i] op= v : a large old element is named, not spelled out (it would double the expression)
+                cur = copy_replace(st.target, lambda n: None)
+                cur.ctx = ast.Load()
+                if sum(1 for _ in ast.walk(self.subst(cur, p.env))) > 150:
+                    cur = ast.Name(id='_old', ctx=ast.Load())
             else:
                 cur = ast.Name(id=st.target.id, ctx=ast.Load()) if isinstance(st.target, ast.Name) else \
                     copy_replace(st.target, lambda n: None)
